@@ -50,8 +50,9 @@ fn s(n: usize) -> String {
 }
 fn utf(n_chars: usize) -> String {
     // multi-byte: 2-, 3- and 4-byte scalars
-    let pat = ['\u{00e9}', '\u{4e2d}', '\u{1f600}'];
-    (0..n_chars).map(|i| pat[i % 3]).collect()
+    // (U+FEFF is an ordinary character in MQTT strings: never a byte order mark to be stripped)
+    let pat = ['\u{feff}', '\u{00e9}', '\u{4e2d}', '\u{1f600}'];
+    (0..n_chars).map(|i| pat[i % 4]).collect()
 }
 fn b(n: usize) -> Vec<u8> {
     (0..n).map(|i| (i * 7 + 3) as u8).collect()
